@@ -123,6 +123,9 @@ type API struct {
 	// Hook is called before every pod create/delete with the call (C17 controlled scheduler); may block.
 	Hook  func(c *Call) error
 	quiet bool
+	// genMu makes "choose a free name + create" one step, as it is on a real server: two concurrent creates with the
+	// same generateName and content both succeed, under names that do not depend on which one came first
+	genMu sync.Mutex
 }
 
 // NewAPI builds the API layer over the in-memory store holding objs (shared, immutable).
@@ -321,6 +324,8 @@ func (a *API) Create(ctx context.Context, obj client.Object, opts ...client.Crea
 	}
 	stored := cp(obj)
 	if stored.GetName() == "" && stored.GetGenerateName() != "" {
+		a.genMu.Lock()
+		defer a.genMu.Unlock()
 		stored.SetName(a.canonicalName(ctx, stored))
 	}
 	stored.SetUID(types.UID("uid-" + strings.ToLower(c.Kind) + "-" + stored.GetNamespace() + "-" + stored.GetName()))
@@ -385,7 +390,11 @@ func (a *API) Delete(ctx context.Context, obj client.Object, opts ...client.Dele
 		return c.Err
 	}
 	if c.Kind == "Pod" {
+		// read-modify-write of one object: serialised like on a real server, so that two concurrent deletions of one pod
+		// have one outcome (both succeed; the second finds the pod terminating)
+		a.genMu.Lock()
 		c.Err = DeletePodGracefully(ctx, a.inner, obj.GetNamespace(), obj.GetName())
+		a.genMu.Unlock()
 	} else {
 		c.Err = a.inner.Delete(ctx, obj, opts...)
 	}
